@@ -65,6 +65,25 @@ type Node struct {
 	// of the name, PatNames the names it binds (Op is then unused).
 	Pat      string
 	PatNames []string
+	// PatFree lists the enclosing names the pattern reads through expression patterns, each
+	// written exactly as `(name)` in Pat.
+	PatFree []string
+}
+
+// WithPatFree records the enclosing names that the pattern of n reads.
+func (n *Node) WithPatFree(names ...string) *Node {
+	c := *n
+	c.PatFree = names
+	return &c
+}
+
+func (n *Node) readsInPat(name string) bool {
+	for _, f := range n.PatFree {
+		if f == name {
+			return true
+		}
+	}
+	return false
 }
 
 // LetPat / FnPat bind by pattern.
@@ -251,6 +270,11 @@ func (n *Node) free(bound map[string]int, out map[string]bool) {
 	if n.K == KPre && preLevel3[n.Op] && bound["."] == 0 {
 		out["."] = true // `=> e` is `. => e`
 	}
+	for _, f := range n.PatFree {
+		if bound[f] == 0 {
+			out[f] = true // expression patterns are evaluated in the scope enclosing the binder
+		}
+	}
 	for i, k := range n.Kids {
 		bs := n.bindsAll(i)
 		for _, b := range bs {
@@ -284,6 +308,16 @@ func (n *Node) Rename(from, to string) *Node {
 		return n
 	}
 	c := *n
+	if n.readsInPat(from) {
+		c.Pat = strings.ReplaceAll(n.Pat, "("+from+")", "("+to+")")
+		c.PatFree = nil
+		for _, f := range n.PatFree {
+			if f == from {
+				f = to
+			}
+			c.PatFree = append(c.PatFree, f)
+		}
+	}
 	c.Kids = make([]*Node, len(n.Kids))
 	for i, k := range n.Kids {
 		if n.bindsName(i, from) {
